@@ -563,7 +563,7 @@ def agreement_cases(world, ctx, backends):
     """the same string through each string-taking source alone: the effective value and type must be the same."""
     cases = []
     strings = {'CoRepo': ['{b}:same-conn', 'local:/same/dir', 'plain/dir'], 'CoNatCli': ['3', '+4', '010'], 'CoPath': ['/same/cache'],
-               'CoBytes': ['same-password', '123', 'true'], 'CoReadFile': ['@0', '@1', '@2', '@3'], 'CoGuessCli': ['123', 'word', 'true', 'None', '2.5', "'quoted'", 'a.b/c:d', '-8']}
+               'CoBytes': ['same-password', '123', 'true', ''], 'CoReadFile': ['@0', '@1', '@2', '@3'], 'CoGuessCli': ['123', 'word', '', 'true', 'None', '2.5', "'quoted'", 'a.b/c:d', '-8']}
     ci = 0
     for backend in backends:
         for row in world.rows(backend):
@@ -596,6 +596,13 @@ def exclusive_cases(world):
         vb = f[(b, 'prof')] if rows[b]['file'] == 'CoReadFile' else 'inline-' + b
         for sa, sb in (('prof', 'prof'), ('dflt', 'dflt'), ('prof', 'dflt'), ('dflt', 'prof')):
             cases.append(world.make_case('pc', 'list-snapshots', [(rows[a], sa, va), (rows[b], sb, vb)], kind='exclusive'))
+        # the pair is in conflict when both KEYS are present, also when a value is empty or falsy (a placeholder)
+        k = 0
+        for ea, eb in (('', vb), (va, ''), ('', ''), (0, vb), (False, vb), (va, 0), (va, False)):
+            sa, sb = [('dflt', 'prof'), ('prof', 'dflt'), ('dflt', 'dflt'), ('prof', 'prof')][k % 4]
+            k += 1
+            c = world.make_case('pc', 'ls', [(rows[a], sa, ea), (rows[b], sb, eb)], kind='exclusive')
+            cases.append(c)
     for a, b in world.excl_cli:
         va = f[(a, 'cli')] if rows[a]['cli'] == 'CoReadFile' else '/cli/' + a
         vb = f[(b, 'cli')] if rows[b]['cli'] == 'CoReadFile' else '/cli/' + b
